@@ -237,6 +237,33 @@ def path_rules(ct, cd, rep, names=None, include_setters=True, prefix=""):
     return n_early, n_funcs
 
 
+def object_state_before_refusal(ct, rep, rule="validate-before-effect"):
+    """'leaves the file exactly as it was' includes what the open object remembers: on no path of a mutator that ends in a
+    refusal has an attribute of the Tdf object been stored or a container it owns been changed (a cache filled with the
+    rejected block, a dirty flag that makes __exit__ write).  Path summaries; the raising paths of remove_block's tail are
+    not refusals of the request (they come after the effects and are C09's business)."""
+    from ..facts import path_returns, self_mutations
+    mod = M.MOD(ct)
+    n = 0
+    for name in ("add_block", "remove_block", "replace_block"):
+        ff = ct.facts(name)
+        fq = f"Tdf.{name}"
+        sn = ff.f.self_name or "self"
+        bad = False
+        for pe in path_returns(ff.f.node):
+            if pe.kind != "raise":
+                continue
+            n += 1
+            muts = self_mutations(pe.effects, sn)
+            if muts:
+                rep.fail(rule, mod, fq, muts[0], f"`{norm(head(muts[0]))[:70]}` changes the Tdf object on a path that then refuses the request (`raise {norm(pe.value)[:50]}`): "
+                         "the refused call leaves a trace (stale cache entry / flag acted upon later)", construct=f"{fq} object state before refusal")
+                bad = True
+        if not bad:
+            rep.ok(rule, f"{fq}: no refusing path has changed an attribute or owned container of the object", nontrivial=True)
+    rep.floor(rule + "/object-state", n, 4)
+
+
 def run(prog, rep):
     ct = Container(prog)
     cd = Codecs(prog)
@@ -251,6 +278,7 @@ def run(prog, rep):
         "the refusals that are early today stay ahead of the first effect."
     )
     n_early, n_funcs = path_rules(ct, cd, rep)
+    rep.attempt(object_state_before_refusal, ct, rep)
     # the read-only refusal must come before the in-memory table changes (the handle refuses the write, but only after that)
     from .c08 import body_guards, eval_guard, wrapper_guards
     wg = wrapper_guards(ct)
